@@ -1124,6 +1124,7 @@ def build_program(ir):
     nontrivial = any(len(funcs[t]["abstract"]) >= 2 and c >= 2 for t, c in n_copies.items())
     for tname in ir["order"]:
         f, t = funcs[tname], TEMPLATES[tname]
+        labels.append("prog.tmpl:" + tname)
         labels.append("prog.style:" + f["style"])
         kinds = [t.slot_kind(s) for s in f["abstract"]]
         for k in set(kinds):
